@@ -5,6 +5,7 @@ set -u
 cd "$(dirname "$0")"
 export GOFLAGS=-mod=mod GOPROXY=off GOSUMDB=off GOTOOLCHAIN=local
 export GOCACHE="${GOCACHE:-/verif/.cache/go-build}"
+export VERIF_ROOT="$(pwd)"
 ID="${1:?property id}"; MODE="${2:-quick}"
 [ -f go.sum ] || cp /repo/go.sum go.sum 2>/dev/null || true
 mkdir -p bin evidence replays
